@@ -20,6 +20,7 @@ _MODELS = {}
 _PLAIN = {}
 _REPS = {}
 PAIR_CAP = 40
+MAX_PAIR_CYCLES = 60.0
 STAGES = ("uniform", "opt1", "opt2")
 
 
@@ -160,7 +161,7 @@ def _load(ctx, archs):
 
 def run_part(ctx):
     res = core.Result()
-    archs = ["zen1", "icx", "tx2", "a64fx"] if not ctx.thorough else drive.shipped_archs()
+    archs = ["zen1", "icx", "snb", "tx2", "a64fx"] if not ctx.thorough else drive.shipped_archs()
     _load(ctx, archs)
     items = []
     info = {}
@@ -173,14 +174,17 @@ def run_part(ctx):
         first = {}
         for i, (_, shape, _) in enumerate(reps):
             first.setdefault(shape, i)
-        red = sorted(first.values())
+        # the balancing loop moves 0.01 cycles per step: lists with hundreds of cycles (wbinvd:
+        # 10^5) take minutes per pair; they are covered as single-line kernels only
+        red = [i for i in sorted(first.values()) if sum(c for c, _ in reps[i][1]) <= MAX_PAIR_CYCLES]
         if len(red) > PAIR_CAP:
             # keep the lists with most micro-ops and the widest port sets, deterministic
             red = sorted(red, key=lambda i: (-len(reps[i][1]),
                                              -max([len(ps) for _, ps in reps[i][1]] or [0]), i))[:PAIR_CAP]
         items += [(a, t) for t in itertools.product(red, repeat=2)]
         info[a] = {"instructions": n, "distinct_micro_op_lists": len(first),
-                   "entries_skipped": skipped, "pair_alphabet": len(red)}
+                   "entries_skipped": skipped, "pair_alphabet": len(red),
+                   "pair_alphabet_max_cycles": MAX_PAIR_CYCLES}
     out = core.pmap(check_kernel, core.rotate(items, ctx.seed))
     for (arch, idxs), o in out:
         res.states += 1
